@@ -30,7 +30,8 @@ from .engine import Executor, ModuleSrc, UserFn, Raised, St, Obligation
 from .values import NONE, VBool, VInt, VStr, VNone, VTuple, VList, VConst, Unsupported, lit
 
 # parameter type descriptors
-STR, INT, BOOL = "str", "int", "bool"
+STR, INT, BOOL, URLT = "str", "int", "bool", "url"
+URL_PARTS = ("scheme", "netloc", "path", "query", "fragment")
 
 
 def OPT(t):
@@ -79,7 +80,8 @@ class Cut:
 
 class Contract:
     def __init__(self, qual, params, spec=None, requires=None, raises=(), loops=None, props=(),
-                 lift=None, note="", abstract=None, result_type=None, search=None, cuts=()):
+                 lift=None, note="", abstract=None, result_type=None, search=None, cuts=(),
+                 opaque=False, shape=None, ensures=None):
         self.qual = qual              # "yarl._parse:split_netloc"
         self.params = params          # list[(name, type)]
         self.spec = spec              # native function object defined in a contracts module
@@ -93,9 +95,13 @@ class Contract:
         self.result_type = result_type
         self.search = search          # replay search space description
         self.cuts = list(cuts)
+        self.opaque = opaque          # at call sites the result is an opaque function of the arguments
+        self.shape = shape            # ... of this shape (STR / INT / BOOL / OPT(..) / tuple of shapes)
+        self.ensures = ensures        # native function (params..., result) -> bool: facts callers may use
 
     # --- use at a call site: the callee is its specification -----------------
     def apply(self, ex, st, args, kwargs, node, f):
+        args = [to_spec_arg(x) for x in args]
         if self.requires is not None:
             rq = ex.wrap(self.requires)
             outs = list(call_spec(ex, st, rq, args, kwargs, node))
@@ -107,16 +113,113 @@ class Contract:
         if self.abstract is not None:
             yield from self.abstract(ex, st, args, kwargs, node)
             return
+        if self.opaque:
+            yield from self.apply_opaque(ex, st, args, kwargs, node)
+            return
         yield from call_spec(ex, st, ex.wrap(self.spec), args, kwargs, node)
+
+    def apply_opaque(self, ex, st, args, kwargs, node):
+        """Modular call: the caller learns only that the outcome is *the* outcome of the
+        callee's specification on these arguments (a function of the arguments: same argument
+        terms, same outcome) plus the callee's `ensures` facts.  Whether it raises is an opaque
+        predicate of the arguments."""
+        import inspect
+        names = list(inspect.signature(self.spec).parameters)
+        bound = dict(zip(names, args))
+        bound.update(kwargs)
+        sig = inspect.signature(self.spec)
+        full = []
+        for n in names:
+            if n in bound:
+                full.append(bound[n])
+            else:
+                full.append(ex.wrap(sig.parameters[n].default))
+        key = ("opaque", self.qual) + tuple(_argkey(a) for a in full)
+        memo = getattr(st.ctx, "memo", None)
+        if memo is None:
+            memo = st.ctx.memo = {}
+        ent = memo.get(key)
+        if ent is None:
+            tag = self.qual.split(":")[-1].replace(".", "_")
+            res = _opaque_value(ex, st.ctx, tag, self.shape)
+            raises = smt.fresh_bool(tag + "_raises") if self.raises else z3.BoolVal(False)
+            ent = memo[key] = (raises, res)
+            if self.ensures is not None:
+                # facts about the result hold whenever the call returns
+                outs = list(call_spec(ex, st, ex.wrap(self.ensures), full + [res], {}, node))
+                if len(outs) != 1 or isinstance(outs[0][0], Raised) or outs[0][1] is not st:
+                    raise Unsupported(f"ensures of {self.qual} forks")
+                st.ctx.add(z3.Implies(z3.Not(raises), ex.truth(st, outs[0][0])))
+        raises, res = ent
+        if not self.raises:
+            yield res, st
+            return
+        for b, s2 in ex.branch(st, raises):
+            if b:
+                yield Raised(V.VExc(self.raises[0])), s2
+            else:
+                yield res, s2
+
+
+def _opaque_value(ex, ctx, tag, shape):
+    if shape == STR:
+        return V.fresh_str(ctx, tag)
+    if shape == INT:
+        return VInt(smt.fresh_int(tag))
+    if shape == BOOL:
+        return VBool(smt.fresh_bool(tag))
+    if isinstance(shape, tuple) and shape and shape[0] == "opt":
+        return V.VOpt(smt.fresh_bool(tag + "_none"), _opaque_value(ex, ctx, tag, shape[1]))
+    if isinstance(shape, (tuple, list)):
+        return VTuple([_opaque_value(ex, ctx, f"{tag}{i}", sh) for i, sh in enumerate(shape)])
+    raise Unsupported(f"opaque shape {shape!r}")
+
+
+def _argkey(v):
+    if isinstance(v, VStr):
+        return ("s", v.conc) if v.conc is not None else ("v", v.a.get_id(), v.lo.get_id(), v.hi.get_id())
+    if isinstance(v, VInt):
+        return ("i", v.t.get_id())
+    if isinstance(v, VBool):
+        return ("b", v.t.get_id())
+    if isinstance(v, VNone):
+        return ("n",)
+    if isinstance(v, V.VObj):
+        return ("o", v.cls) + tuple((k, _argkey(x)) for k, x in sorted(v.fields.items()) if not k.startswith("_cache"))
+    if isinstance(v, V.VOpt):
+        return ("opt", v.isnone.get_id(), _argkey(v.val))
+    if isinstance(v, (VTuple, VList)):
+        return ("t",) + tuple(_argkey(x) for x in v.items)
+    if isinstance(v, VConst):
+        return ("c", id(v.obj))
+    raise Unsupported("argument key")
 
 
 def call_spec(ex, st, sp, args, kwargs, node=None):
     """run a specification function inline: inside it every exception class is a legitimate
-    outcome (forked, not an obligation); yields (value | Raised, state)"""
+    outcome (forked, not an obligation); yields (value | Raised, state).
+    Specifications are pure: the outcome of a call already made on this path with the same
+    argument terms is reused (per-path summary)."""
+    try:
+        key = ("call", sp.modsrc.modname, sp.qual) + tuple(_argkey(a) for a in args) + \
+              tuple((k, _argkey(v)) for k, v in sorted(kwargs.items()))
+    except Unsupported:
+        key = None
+    cm = getattr(st.ctx, "callmemo", None)
+    if cm is None:
+        cm = st.ctx.callmemo = {}
+    if key is not None and key in cm:
+        yield cm[key], st
+        return
     depth = len(st.handled)
     st.handled.append((BaseException,))
     for v, s2 in ex.run_function(st, sp, list(args), dict(kwargs), node):
         del s2.handled[depth:]
+        if key is not None:
+            m2 = getattr(s2.ctx, "callmemo", None)
+            if m2 is None:
+                m2 = s2.ctx.callmemo = {}
+            m2[key] = v
         yield v, s2
 
 
@@ -130,6 +233,8 @@ def make_param(ctx, name, ty):
         return [("int", ("int", name))]
     if ty == BOOL:
         return [("bool", ("bool", name))]
+    if ty == URLT:
+        return [("URL", ("url", name))]
     if isinstance(ty, tuple) and ty[0] == "const":
         return [(repr(c), ("const", c)) for c in ty[1]]
     raise ValueError(ty)
@@ -147,7 +252,18 @@ def instantiate_param(ex, ctx, desc):
         return VBool(z3.Bool(name))
     if kind == "const":
         return ex.wrap(name)
+    if kind == "url":
+        fields = {"_" + p: V.sym_str(ctx, f"{name}_{p}") for p in URL_PARTS}
+        fields["_cache"] = V.VDict({}, fresh=True)   # the per-object memo is in every method's frame (C08 O2 constrains what is written)
+        return V.VObj("URL", fields, fresh=False)
     raise ValueError(desc)
+
+
+def to_spec_arg(v):
+    """the specification sees a URL as the value of its five stored parts (contracts.spec_url.U)"""
+    if isinstance(v, V.VObj) and v.cls == "URL":
+        return V.VObj("U", {p: v.fields["_" + p] for p in URL_PARTS}, fresh=False)
+    return v
 
 
 def describe(v):
@@ -268,104 +384,128 @@ def verify_contract(contract, registry, combo_filter=None, timeout_ms=10000, rou
             args = [instantiate_param(ex, st.ctx, d) for _, d in combo]
             fn = UserFn(ms, node, qual)
             sp = UserFn(spec_ms, spec_node, contract.spec.__qualname__) if contract.spec else None
+            sargs = [to_spec_arg(x) for x in args]
             try:
+                pre_states = [st]
                 if contract.requires is not None:
-                    outs = list(call_spec(ex, st, ex.wrap(contract.requires), args, {}))
-                    if len(outs) != 1 or isinstance(outs[0][0], Raised):
-                        raise Unsupported("precondition forks or raises")
-                    st = outs[0][1]
-                    st.assume(ex.truth(st, outs[0][0]))
-                code_env = ex.bind_params(fn, args)
-                spec_env = ex.bind_params(sp, args) if sp else {}
-                code_env["__globals__"] = ms.mod.__dict__
-                if seg > 0:
-                    cut = cuts[seg - 1]
-                    cnames, snames = _relation_names(cut.relation)
-                    cnames -= set(dir(__import__("builtins"))) | set(spec_ms.mod.__dict__) | set(ms.mod.__dict__)
-                    for nm in sorted(cnames):
-                        if nm not in code_env:
-                            code_env[nm] = _fresh_of(ex, st.ctx, f"c_{nm}", cut.types.get(nm, "str"))
-                    for nm in sorted(snames):
-                        if nm not in spec_env:
-                            spec_env[nm] = _fresh_of(ex, st.ctx, f"s_{nm}", cut.types.get("S." + nm, "str"))
-                    import ast as _ast
-                    for src in cut.relation:
-                        t = _ast.parse(src, mode="eval").body
-                        if (isinstance(t, _ast.Compare) and len(t.ops) == 1 and isinstance(t.ops[0], _ast.Eq)
-                                and isinstance(t.left, _ast.Name) and isinstance(t.comparators[0], _ast.Attribute)
-                                and getattr(t.comparators[0].value, "id", None) == "S"
-                                and cut.types.get(t.left.id, "str") == cut.types.get("S." + t.comparators[0].attr, "str")):
-                            spec_env[t.comparators[0].attr] = code_env[t.left.id]     # same symbol on both sides
-                            continue
-                        st.assume(_eval_relation(ex, st, src, code_env, spec_env, spec_ms))
-                if not st.feasible():
-                    if seg > 0:
-                        res["unsupported"].append(f"vacuous: cut relation of {label} is contradictory")
-                    continue
-                if seg == 0:
-                    res["combos"] += 1
-                pi = 0
-                for flow, val, s2 in ex.run_range(st, fn, dict(code_env), code_idx[seg], code_idx[seg + 1]):
-                    pi += 1
-                    res["paths"] += 1
-                    if res["paths"] > ex.max_paths:
-                        raise Unsupported("path budget exceeded")
-                    if sp is None:
-                        continue
-                    cenv = dict(s2.env)
-                    at_cut = flow == "next" and seg < nseg - 1
-                    if flow == "next" and not at_cut:
-                        flow, val = "return", NONE
-                    depth = len(s2.handled)
-                    s2.handled.append((BaseException,))
-                    s_end = spec_idx[seg + 1] if at_cut else len(spec_node.body)
-                    s_start = spec_idx[seg] + (1 if seg > 0 else 0)
-                    senv0 = {k: v for k, v in spec_env.items()}
-                    for sflow, sval, s3 in ex.run_range(s2, sp, senv0, s_start, s_end):
-                        del s3.handled[depth:]
-                        res["pairs"] += 1
-                        nm = f"{label}|path{pi}"
-                        if at_cut:
-                            if sflow != "next":
-                                ex.oblige(s3, f"cut:{cuts[seg].name}:spec-ends-({sflow})-where-code-continues[{nm}]",
-                                          "raises", z3.BoolVal(False), None, {})
+                    # the precondition may itself be a partial, branching specification
+                    # (e.g. "the authority splits without error"): every way of satisfying it
+                    # is explored; ways of violating it (False / raise) are outside the contract
+                    def _pre(st0):
+                        for v, s1 in call_spec(ex, st0, ex.wrap(contract.requires), sargs, {}):
+                            if isinstance(v, Raised):
                                 continue
-                            senv = dict(s3.env)
-                            for src in cuts[seg].relation:
-                                g = _eval_relation(ex, s3, src, cenv, senv, spec_ms)
-                                ex.oblige(s3, f"cut:{cuts[seg].name}:{src}[{nm}]", "cut", g, None, {})
-                            continue
-                        if sflow == "next":
-                            sflow, sval = "return", NONE
-                        craise, sraise = flow == "raise", sflow == "raise"
-                        if not craise and not sraise:
-                            try:
-                                g = ex.equal(s3, val, sval)
-                            except Unsupported:
-                                g = z3.BoolVal(False)
-                            ex.oblige(s3, f"post:result==spec[{nm}]", "post", g, None,
-                                      {"code": describe(val), "spec": describe(sval)})
-                        elif craise and sraise:
-                            ok = issubclass(val.cls, sval.cls)
-                            ex.oblige(s3, f"raises:same-class[{nm}]", "raises", z3.BoolVal(ok), None,
-                                      {"code": val.cls.__name__, "spec": sval.cls.__name__})
-                        elif craise:
-                            ex.oblige(s3, f"raises:code-raises-{val.cls.__name__}-where-spec-returns[{nm}]", "raises",
-                                      z3.BoolVal(False), None, {"code": val.cls.__name__, "spec": describe(sval)})
-                        else:
-                            ex.oblige(s3, f"raises:spec-raises-{sval.cls.__name__}-where-code-returns[{nm}]", "raises",
-                                      z3.BoolVal(False), None, {"code": describe(val), "spec": sval.cls.__name__})
-                if pi == 0:
-                    res["unsupported"].append(f"vacuous: no feasible path for {label}")
-                res["inlined"] = sorted(set(res["inlined"]) | ex.inlined)
-                res["callee_contracts"] = sorted(set(res["callee_contracts"]) | ex.called_contracts)
+                            t = z3.simplify(ex.truth(s1, v))
+                            if z3.is_false(t):
+                                continue
+                            s1.assume(t)
+                            if s1.feasible():
+                                yield s1
+                    pre_states = _pre(st)
             except Unsupported as u:
                 res["unsupported"].append(f"{label}: {u}")
                 continue
-            finally:
-                res["solver_checks"] += ex.sol.nchecks
-                res["solver_time_s"] += ex.sol.time
-                res["merges"] += getattr(ex, "nmerges", 0)
+            pi = 0
+            broke = False
+            for st in pre_states:
+              try:
+                  code_env = ex.bind_params(fn, args)
+                  spec_env = ex.bind_params(sp, sargs) if sp else {}
+                  code_env["__globals__"] = ms.mod.__dict__
+                  if seg > 0:
+                      cut = cuts[seg - 1]
+                      cnames, snames = _relation_names(cut.relation)
+                      cnames -= set(dir(__import__("builtins"))) | set(spec_ms.mod.__dict__) | set(ms.mod.__dict__)
+                      for nm in sorted(cnames):
+                          if nm not in code_env:
+                              code_env[nm] = _fresh_of(ex, st.ctx, f"c_{nm}", cut.types.get(nm, "str"))
+                      for nm in sorted(snames):
+                          if nm not in spec_env:
+                              spec_env[nm] = _fresh_of(ex, st.ctx, f"s_{nm}", cut.types.get("S." + nm, "str"))
+                      import ast as _ast
+                      for src in cut.relation:
+                          t = _ast.parse(src, mode="eval").body
+                          if (isinstance(t, _ast.Compare) and len(t.ops) == 1 and isinstance(t.ops[0], _ast.Eq)
+                                  and isinstance(t.left, _ast.Name) and isinstance(t.comparators[0], _ast.Attribute)
+                                  and getattr(t.comparators[0].value, "id", None) == "S"
+                                  and cut.types.get(t.left.id, "str") == cut.types.get("S." + t.comparators[0].attr, "str")):
+                              spec_env[t.comparators[0].attr] = code_env[t.left.id]     # same symbol on both sides
+                              continue
+                          st.assume(_eval_relation(ex, st, src, code_env, spec_env, spec_ms))
+                  if not st.feasible():
+                      if seg > 0:
+                          res["unsupported"].append(f"vacuous: cut relation of {label} is contradictory")
+                      continue
+                  for flow, val, s2 in ex.run_range(st, fn, dict(code_env), code_idx[seg], code_idx[seg + 1]):
+                      pi += 1
+                      res["paths"] += 1
+                      if res["paths"] > ex.max_paths:
+                          raise Unsupported("path budget exceeded")
+                      if sp is None:
+                          continue
+                      cenv = dict(s2.env)
+                      at_cut = flow == "next" and seg < nseg - 1
+                      if flow == "next" and not at_cut:
+                          flow, val = "return", NONE
+                      depth = len(s2.handled)
+                      s2.handled.append((BaseException,))
+                      s_end = spec_idx[seg + 1] if at_cut else len(spec_node.body)
+                      s_start = spec_idx[seg] + (1 if seg > 0 else 0)
+                      senv0 = {k: v for k, v in spec_env.items()}
+                      for sflow, sval, s3 in ex.run_range(s2, sp, senv0, s_start, s_end):
+                          del s3.handled[depth:]
+                          res["pairs"] += 1
+                          nm = f"{label}|path{pi}"
+                          if at_cut:
+                              if sflow != "next":
+                                  ex.oblige(s3, f"cut:{cuts[seg].name}:spec-ends-({sflow})-where-code-continues[{nm}]",
+                                            "raises", z3.BoolVal(False), None, {})
+                                  continue
+                              senv = dict(s3.env)
+                              for src in cuts[seg].relation:
+                                  g = _eval_relation(ex, s3, src, cenv, senv, spec_ms)
+                                  ex.oblige(s3, f"cut:{cuts[seg].name}:{src}[{nm}]", "cut", g, None, {})
+                              continue
+                          if sflow == "next":
+                              sflow, sval = "return", NONE
+                          craise, sraise = flow == "raise", sflow == "raise"
+                          if not craise and not sraise:
+                              try:
+                                  g = ex.equal(s3, val, sval)
+                              except Unsupported:
+                                  g = z3.BoolVal(False)
+                              ex.oblige(s3, f"post:result==spec[{nm}]", "post", g, None,
+                                        {"code": describe(val), "spec": describe(sval)})
+                              if contract.ensures is not None:
+                                  for ev, s4 in call_spec(ex, s3, ex.wrap(contract.ensures), sargs + [sval], {}):
+                                      eg = z3.BoolVal(False) if isinstance(ev, Raised) else ex.truth(s4, ev)
+                                      ex.oblige(s4, f"ensures:spec-result[{nm}]", "ensures", eg, None, {})
+                          elif craise and sraise:
+                              ok = issubclass(val.cls, sval.cls)
+                              ex.oblige(s3, f"raises:same-class[{nm}]", "raises", z3.BoolVal(ok), None,
+                                        {"code": val.cls.__name__, "spec": sval.cls.__name__})
+                          elif craise:
+                              ex.oblige(s3, f"raises:code-raises-{val.cls.__name__}-where-spec-returns[{nm}]", "raises",
+                                        z3.BoolVal(False), None, {"code": val.cls.__name__, "spec": describe(sval)})
+                          else:
+                              ex.oblige(s3, f"raises:spec-raises-{sval.cls.__name__}-where-code-returns[{nm}]", "raises",
+                                        z3.BoolVal(False), None, {"code": describe(val), "spec": sval.cls.__name__})
+                  res["inlined"] = sorted(set(res["inlined"]) | ex.inlined)
+                  res["callee_contracts"] = sorted(set(res["callee_contracts"]) | ex.called_contracts)
+              except Unsupported as u:
+                  res["unsupported"].append(f"{label}: {u}")
+                  broke = True
+                  break
+            if pi == 0 and not broke:
+                # no path at all: either the argument kinds are excluded by the precondition
+                # (fine for one combination) or the contract is vacuous (caught by the caller,
+                # which requires at least one explored path per function)
+                res.setdefault("empty_combos", []).append(label)
+            elif seg == 0:
+                res["combos"] += 1
+            res["solver_checks"] += ex.sol.nchecks
+            res["solver_time_s"] += ex.sol.time
+            res["merges"] += getattr(ex, "nmerges", 0)
             # obligations left open by the incremental solver: standalone prover
             for ob in ex.obligations:
                 if ob.result is None:
@@ -395,12 +535,12 @@ def concretise(model, contract, combo):
             continue
         kind, nm = desc
         if kind == "str":
-            a = z3.Const(nm, z3.ArraySort(z3.IntSort(), z3.IntSort()))
+            a = z3.Function(nm, z3.IntSort(), z3.IntSort())
             n = model.eval(z3.Int(nm + "_len"), model_completion=True).as_long()
             n = max(0, min(n, 200))
             chars = []
             for i in range(n):
-                c = model.eval(a[i], model_completion=True).as_long()
+                c = model.eval(a(i), model_completion=True).as_long()
                 if not (0 <= c <= 0x10FFFF):
                     c = 0x61
                 chars.append(chr(c))
@@ -411,4 +551,16 @@ def concretise(model, contract, combo):
             out[name] = z3.is_true(model.eval(z3.Bool(nm), model_completion=True))
         elif kind == "const":
             out[name] = nm
+        elif kind == "url":
+            d = {}
+            for p in URL_PARTS:
+                a = z3.Function(f"{nm}_{p}", z3.IntSort(), z3.IntSort())
+                n = model.eval(z3.Int(f"{nm}_{p}_len"), model_completion=True).as_long()
+                n = max(0, min(n, 200))
+                cs = []
+                for i in range(n):
+                    c = model.eval(a(i), model_completion=True).as_long()
+                    cs.append(chr(c) if 0 <= c <= 0x10FFFF else "a")
+                d[p] = "".join(cs)
+            out[name] = {"__url__": d}
     return out
